@@ -59,12 +59,17 @@ def main(argv):
     pre = getattr(mod, "pre_build", None)
     if pre:
         pre(ctx)                      # e.g. regenerate tables from /repo
-    targets = ["driver"] + [f"SedpackProps.{p.stem}" for p in sorted((LEAN / "SedpackProps").glob(f"{prop}*.lean"))]
+    driver_ok, dout = lean.build(["driver"])            # the executable models (no proofs involved)
+    targets = [f"SedpackProps.{p.stem}" for p in sorted((LEAN / "SedpackProps").glob(f"{prop}*.lean"))]
     ok, out = lean.build(targets)
     proof_broken: list[str] = []
+    if not driver_ok:
+        ctx.log("lake build driver failed:\n" + dout[-3000:])
+        proof_broken.append("lake build driver: " + dout[-1500:])
     if not ok:
         ctx.log("lake build failed:\n" + out[-3000:])
-        proof_broken.append("lake build: " + out[-1500:])
+        errs = [l for l in out.split("\n") if l.startswith("error")]
+        proof_broken.append("lake build: " + " | ".join(errs[:4])[:1500])
     tokens = lean.forbidden_tokens()
     if tokens:
         proof_broken.append("forbidden tokens: " + "; ".join(tokens[:5]))
@@ -88,7 +93,7 @@ def main(argv):
     # ---- 2. correspondence + oracle ---------------------------------------------------------
     rc = 0
     try:
-        if ok or getattr(mod, "RUN_WITHOUT_LEAN", False):
+        if driver_ok or getattr(mod, "RUN_WITHOUT_LEAN", False):
             mod.run(ctx)
         else:
             # the model cannot be consulted: still search the implementation for a failing input
